@@ -28,6 +28,14 @@ type fresh struct {
 	needs string   // a name the document must already declare (the fresh declaration refers to it)
 }
 
+// heirOf: a fresh type that inherits from an existing object type.
+func heirOf(base string) fresh {
+	name := "@freshheir_" + base[1:]
+	return fresh{name: "type-heir-of-" + base[1:], nodes: func() []*doc.Node {
+		return []*doc.Node{doc.N("TYPE", name).WithBody("{ // {allOf: \"" + base + "\"}\n  \"fhx\": 1\n}")}
+	}, adds: []string{"userTypes/" + name}, needs: base}
+}
+
 func freshDecls() []fresh {
 	return []fresh{
 		{"type-jsight", func() []*doc.Node { return []*doc.Node{doc.N("TYPE", "@fresh1").WithBody("{\n  \"f\": 1\n}")} }, []string{"userTypes/@fresh1"}, ""},
@@ -72,6 +80,9 @@ func freshDecls() []fresh {
 		{name: "type-heir-of-heir", nodes: func() []*doc.Node {
 			return []*doc.Node{doc.N("TYPE", "@freshheir2").WithBody("{ // {allOf: \"@h\"}\n  \"fh2\": 1\n}")}
 		}, adds: []string{"userTypes/@freshheir2"}, needs: "@h"},
+		// an heir of every other object type of the pool (a type with an inheriting nested object, the
+		// end of a chain, an empty intermediate base, a type with a key shortcut)
+		heirOf("@nest"), heirOf("@hh"), heirOf("@mid"), heirOf("@leaf"), heirOf("@ksm"), heirOf("@kst"),
 		{name: "type-referring-to-heir", nodes: func() []*doc.Node {
 			return []*doc.Node{doc.N("TYPE", "@freshref").WithBody("{\n  \"r\": @h\n}")}
 		}, adds: []string{"userTypes/@freshref"}, needs: "@h"},
